@@ -222,6 +222,17 @@ func (h *vingH) realOf(tok string) digest.Digest {
 	return d
 }
 func (h *vingH) realTag(tok string) string {
+	if strings.HasPrefix(tok, "fx") {
+		// an ordinary tag that only starts like a fallback tag: <alg>-<64 hex>.meta
+		d := h.realOf(tok[2:])
+		enc := d.Encoded()
+		if len(enc) > 64 {
+			enc = enc[:64]
+		}
+		t := d.Algorithm().String() + "-" + enc + ".meta"
+		h.tagTok[t] = tok
+		return t
+	}
 	if strings.HasPrefix(tok, "fb") {
 		d := h.realOf(tok[2:])
 		enc := d.Encoded()
@@ -672,6 +683,24 @@ func (h *vingH) expected() (required, allowed map[string]map[string]bool) {
 	return required, allowed
 }
 
+// inOldResponse: the descriptor is listed, as it is, by a response that was registered for the subject before the
+// conversion (what such a response says is not the conversion's to correct)
+func (h *vingH) inOldResponse(subj string, d vingDesc) bool {
+	for _, t := range h.tops {
+		if t.subj != subj {
+			continue
+		}
+		if b := h.byTok[t.dig]; b != nil {
+			for _, l := range b.listed {
+				if l.dig == d.dig && l.size == d.size {
+					return true
+				}
+			}
+		}
+	}
+	return false
+}
+
 // the part of an observation that the statement of C17 speaks about
 func (h *vingH) statement(o vingObs) string {
 	if o.hang != "" || o.err != "" {
@@ -756,6 +785,10 @@ func (h *vingH) monitors(storeKind string, o vingObs) {
 		if vingConverted(o.index) {
 			for _, d := range ds {
 				got[d.dig] = true
+				// what is listed describes the manifest as it is stored, not as a stale fallback index described it
+				if m := h.byTok[d.dig]; m != nil && m.kind == "man" && d.size != len(m.raw) && !h.inOldResponse(s, d) {
+					h.flag("convert-wrong-descriptor", fmt.Sprintf("%s store: referrer %s of subject %s is listed with size %d, the manifest has %d bytes", storeKind, d.dig, s, d.size, len(m.raw)))
+				}
 			}
 		}
 		for d := range required[s] {
@@ -1249,6 +1282,11 @@ func (g *vingGen) layout(h *vingH) {
 			name = mkIdx([]vingDesc{mans[r.Intn(len(mans))].acc, mans[r.Intn(len(mans))].acc})
 		}
 		top(name, g.pick("ocii", "ocii", "dockl"), "t3", "", 0)
+	}
+	// an ordinary tag that starts like a fallback tag, on an index that lists referrers: it is a tag like any other
+	if r.Intn(4) == 0 {
+		name := mkIdx([]vingDesc{listed(g.pick("S1", "S2")), mans[r.Intn(len(mans))].acc})
+		top(name, "ocii", "fx"+g.pick("S1", "S2", "S9"), "", 0)
 	}
 	g.emit("INGEST store=mem")
 	g.emit("INGEST store=dir")
